@@ -187,7 +187,11 @@ func VerifC06_Lifecycle() {
 	// one preemption at any synchronisation operation (G2): the goroutine
 	// waiting for the routine may run between the routine's finish signal and
 	// the delivery of its error
-	rt.Preemptions(1)
+	if rt.Thorough() {
+		rt.Preemptions(2)
+	} else {
+		rt.Preemptions(1)
+	}
 	SetStdErrReporting(false)
 	modules = make(map[string]*Module)
 	modulesLocked.UnSet()
@@ -237,6 +241,9 @@ func VerifC06_Lifecycle() {
 // a panicking item next to healthy ones (G1): the healthy ones are unaffected
 func VerifC06_AmongHealthy() {
 	rt.SchedYieldOnly(true)
+	if rt.Thorough() {
+		rt.Preemptions(1)
+	}
 	m, ch := c06Module()
 	kind := rt.Choice("panic", c06Kinds)
 	pos := rt.Choice("pos", 3)
@@ -264,6 +271,9 @@ func VerifC06_AmongHealthy() {
 func VerifC06_ManagementPass() {
 	rt.NoTimers()
 	rt.SchedYieldOnly(true)
+	if rt.Thorough() {
+		rt.Preemptions(1)
+	}
 	SetStdErrReporting(false)
 	modules = make(map[string]*Module)
 	modulesLocked.UnSet()
